@@ -381,6 +381,15 @@ class Interp:
                     if sorted(fa) == sorted(fb) and fa != fb:
                         self.report(node, 'elementwise operation between two flattened axes with the same factors in different order (%s vs %s): '
                                     'the entries of one operand are paired with the wrong rows of the other' % (a[1], b[1]))
+            # a per-batch quantity (shape = the batch prefix only) against a per-item quantity (batch prefix + named axes): right-aligned
+            # broadcasting matches the LAST batch axis with the item axis - batch item j meets point j - unless the prefix is empty
+            for a_, b_ in ((l, r), (r, l)):
+                if len(b_.shape) == 1 and b_.shape[0][0] == 'batch' and len(a_.shape) >= 2 and a_.shape[0] == b_.shape[0] and \
+                        all(d[0] == 'sym' for d in a_.shape[1:]):
+                    self.report(node, 'a per-batch quantity (one value per batch item) is combined elementwise with a per-point quantity of the same batch: '
+                                'broadcasting aligns shapes from the right, so for a non-empty batch the batch axis is matched against the point axis `%s` '
+                                '(an error, or - when the two extents happen to agree - item j of the batch silently applied to point j of every item)'
+                                % a_.shape[-1][1])
             sh = broadcast(l.shape, r.shape)
             if sh is None:
                 self.unknown += 1
